@@ -929,7 +929,7 @@ pub fn run(opts: &Opts) -> Option<(Stats, Vec<String>, String)> {
         total.add("exhaustive.sequences", total_seq);
         total.add("exhaustive.complete", complete as u64);
         total.add("exhaustive.max_len", len as u64);
-        let cases = ((if q { 150_000 } else { 3_000_000 }) as f64 * opts.scale) as u64;
+        let cases = ((if q { 500_000 } else { 5_000_000 }) as f64 * opts.scale) as u64;
         let rnd = par_for(opts.jobs, cases, 256, Some(deadline), |st, i, _slot| {
             let mut rng = Rng::new(mix(seed, i));
             let ops = random_ops(&mut rng, 6, 14);
@@ -970,7 +970,7 @@ pub fn run(opts: &Opts) -> Option<(Stats, Vec<String>, String)> {
 
     if prop == "C18" {
         let max_n = if q { 40 } else { 320 };
-        let cases = ((if q { 4_000 } else { 60_000 }) as f64 * opts.scale) as u64;
+        let cases = ((if q { 20_000 } else { 100_000 }) as f64 * opts.scale) as u64;
         // fixed hostile members first: layered 4x6 .. and K_n
         let rnd = par_for(opts.jobs, cases, 16, Some(deadline), |st, i, slot| {
             let mut rng = Rng::new(mix(seed, i));
@@ -1074,10 +1074,10 @@ pub fn run(opts: &Opts) -> Option<(Stats, Vec<String>, String)> {
     total.add("exhaustive.max_n", max_exh_n as u64);
 
     let (cases, max_n) = match (prop, q) {
-        ("C12", true) => (40_000u64, 24),
-        ("C12", false) => (600_000, 40),
-        (_, true) => (60_000, 30),
-        (_, false) => (1_000_000, 40),
+        ("C12", true) => (120_000u64, 28),
+        ("C12", false) => (1_000_000, 40),
+        (_, true) => (250_000, 32),
+        (_, false) => (2_000_000, 40),
     };
     let cases = (cases as f64 * opts.scale) as u64;
     let rnd = par_for(opts.jobs, cases, 64, Some(deadline), |st, i, _slot| {
